@@ -1,2 +1,56 @@
-(* Spec/FastaSpec.v — specification-level definitions. *)
+(* Spec/FastaSpec.v — what C01 talks about: the domain of records, and
+   "the text L is a layout of the record list rs". *)
 From Bio Require Import Base.
+From Bio.Model Require Import Fasta.
+
+(* The property's domain: names free of CR/LF, sequences free of CR/LF/'>'. *)
+Definition fa_ok (r : fasta) : Prop :=
+  clean [CR; LF] (name r) /\ clean [CR; LF; GT] (seq r).
+
+(* A separator: a non-empty string of line-break bytes (LF, CRLF, CR, LF LF = a
+   blank line, ...).  A chunk: a non-empty sequence line. *)
+Definition sep (s : bytes) : Prop := s <> [] /\ Forall (fun b => is_nl b = true) s.
+Definition chunk (c : bytes) : Prop := c <> [] /\ clean [LF; CR; GT] c.
+
+(* [Body last sq txt]: [txt] is the sequence [sq] cut into chunks at arbitrary
+   places, each followed by a separator; only when this is the last thing in the
+   file ([last = true]) may the final separator be missing. *)
+Inductive Body : bool -> bytes -> bytes -> Prop :=
+| B_nil  l : Body l [] []
+| B_cons l c s sq txt : chunk c -> sep s -> Body l sq txt -> Body l (c ++ sq) (c ++ s ++ txt)
+| B_last c : chunk c -> Body true c c.
+
+(* one record: '>' name separator body; at the very end of the file a record
+   without sequence may be just '>' name. *)
+Inductive RecL : bool -> fasta -> bytes -> Prop :=
+| R_intro l r s body : clean [LF; CR] (name r) -> sep s -> Body l (seq r) body ->
+                       RecL l r (GT :: name r ++ s ++ body)
+| R_bare r : clean [LF; CR] (name r) -> seq r = [] -> RecL true r (GT :: name r).
+
+(* the file: the records' texts one after the other, starting with '>' *)
+Inductive Layout : list fasta -> bytes -> Prop :=
+| L_nil : Layout [] []
+| L_last r t : RecL true r t -> Layout [r] t
+| L_cons r t rs ts : RecL false r t -> rs <> [] -> Layout rs ts -> Layout (r :: rs) (t ++ ts).
+
+(* The writer's line structure, for any separator in place of LF: used to state
+   the CRLF / lone-CR / blank-line variants of the writer's own layout. *)
+Definition write_nl (nl : bytes) (r : fasta) : bytes :=
+  GT :: name r ++ nl ++ concat (map (fun c => c ++ nl) (chunks (seq r))).
+
+(* Re-wrapping: cut [s] into lines of the given widths ([S w] each, so never
+   empty); what is left when the widths run out is one more line. *)
+Fixpoint cut (ws : list nat) (s : bytes) : list bytes :=
+  match s with
+  | [] => []
+  | _ :: _ =>
+    match ws with
+    | [] => [s]
+    | w :: ws' => firstn (S w) s :: cut ws' (skipn (S w) s)
+    end
+  end.
+
+(* a record laid out with separator [nl] after every line and the sequence
+   wrapped at the widths [ws] *)
+Definition render (nl : bytes) (ws : list nat) (r : fasta) : bytes :=
+  GT :: name r ++ nl ++ concat (map (fun c => c ++ nl) (cut ws (seq r))).
